@@ -449,6 +449,21 @@ def check(ctx: Ctx) -> list[RuleResult]:
         r4.ok({"array_merge_requires": "a time window between the two packets"})
     else:
         r4.fail(f"{daf.short}:merge-without-time-window", daf.loc(rets[0]), "detect_array_fragment no longer bounds the time between the two packets")
+    # a device's class may be learnt from traffic - its own. The dispatcher creates the devices a packet names; handing the packet to
+    # get_device() for a device that is only the *addressee* would class it by somebody else's message (a fan first seen as the
+    # destination of a remote's 22F1 becomes a remote, and every packet of its own is rejected from then on)
+    cda = [g for g in repo.funcs.values() if g.module.name == "ramses_rf.dispatcher" and any(isinstance(c, ast.Call) and isinstance(c.func, ast.Attribute) and c.func.attr == "get_device" for c in own_nodes(g.node))]
+    for g in cda:
+        for c in own_nodes(g.node):
+            if isinstance(c, ast.Call) and isinstance(c.func, ast.Attribute) and c.func.attr == "get_device" and c.args:
+                r4.instances += 1
+                r4.nontrivial += 1
+                who = norm(c.args[0])
+                passes_msg = any(k.arg == "msg" and not (isinstance(k.value, ast.Constant) and k.value.value is None) for k in c.keywords)
+                if passes_msg and ".dst" in who:
+                    r4.fail(f"{g.short}:addressee-classed-by-foreign-msg", g.loc(c), f"`{norm(c)[:70]}` hands the packet to get_device() for its *destination*: a device of an indeterminate type is then given the class implied by another device's message, and its own packets are rejected as unexpected for that class")
+                else:
+                    r4.ok({"create": norm(c)[:60], "classed_by_foreign_msg": False})
     out.append(r4)
 
     # ---- R7 ---------------------------------------------------------------------------
